@@ -290,7 +290,7 @@ Theorem rsa_verify_spec n e prefix hashed sig :
     len sig = k /\ os2ip sig < n /\ len prefix + len hashed + 11 <= k /\
     (os2ip sig ^ e) mod n = os2ip (emsa k prefix hashed).
 Proof.
-  intros Hn Hp Hh k. unfold rsa_verify. fold k.
+  intros Hn Hp Hh k. unfold rsa_verify, rsa_verify_with. fold k.
   destruct (len sig =? k) eqn:A; cbn [negb].
   2:{ apply N.eqb_neq in A. split; [discriminate | intros (H & _); congruence]. }
   apply N.eqb_eq in A.
